@@ -846,7 +846,7 @@ public:
 
         auto* f = data() + pos;
         auto* l = f + etl::min(count, size() - pos);
-        detail::str_replace(f, l, str, next(str, strlen(str)));
+        detail::str_replace(f, l, str, next(str, static_cast<etl::ptrdiff_t>(traits_type::length(str))));
         return *this;
     }
 
@@ -854,7 +854,7 @@ public:
     {
         auto* f = to_mutable_iterator(first);
         auto* l = to_mutable_iterator(last);
-        detail::str_replace(f, l, str, next(str, strlen(str)));
+        detail::str_replace(f, l, str, next(str, static_cast<etl::ptrdiff_t>(traits_type::length(str))));
         return *this;
     }
 
@@ -1027,7 +1027,7 @@ public:
     /// \bug See tests.
     [[nodiscard]] constexpr auto rfind(const_pointer s, size_type pos, size_type count) const noexcept -> size_type
     {
-        return etl::strings::rfind<Char, Traits>(*this, s, count, pos);
+        return etl::strings::rfind<Char, Traits>(*this, basic_string_view<Char, Traits>{s, count}, pos);
     }
 
     /// \brief Finds the last substring equal to the given character sequence.
